@@ -16,6 +16,8 @@ func main() {
 	start := time.Now()
 	var r *report.Result
 	switch c.Prop {
+	case "C02":
+		r = lang.C02gen(c)
 	case "C05":
 		r = lang.C05(c)
 	case "C16":
